@@ -10,6 +10,7 @@ namespace Ipv8.C16
 inductive Atom
   | prevLenNe            -- len(token.previous_token_hash) != len(self.genesis_hash)
   | chashLenNe           -- len(token.content_hash) != len(self.genesis_hash)
+  | sigLenNe             -- len(token.signature) != self.public_key.get_signature_length()
   | verify               -- token.verify(self.public_key)
   | prevIsGenesis        -- token.previous_token_hash == self.genesis_hash
   | prevInElements       -- token.previous_token_hash in self.elements
